@@ -90,7 +90,7 @@ static bool ortho_path_exists(int G, const vector<Poly> &sc, P a, P b) {
 static void judge_valid(const vector<Poly> &sc, const vector<Poly> &scS, P a, P b, const Avoid::PolyLine &r, bool ortho, int G,
                         const string &what, const vector<string> &kc) {
     // scS = shapes in library coordinates (scaled by S)
-    ctx.count("transitions");
+    ctx.count("transitions"); ctx.count("evaluations");
     string desc = what + " scene " + scene_str(sc) + mcx::fmt(" conn (%lld,%lld)->(%lld,%lld)", a.x, a.y, b.x, b.y);
     bool blocked = straight_blocked(sc, a, b);
     if (blocked) ctx.count("nontrivial");
@@ -161,7 +161,7 @@ static void c04_phase(int G, int k, double penCells, bool tris) {
         for (size_t a = 0; a < fr.size(); a++) for (size_t b = a + 1; b < fr.size(); b++) { eps.push_back({fr[a], fr[b]}); cs.push_back(mk_conn(r, fr[a], fr[b])); }
         r->processTransaction();
         for (size_t i = 0; i < eps.size(); i++) {
-            ctx.count("transitions");
+            ctx.count("transitions"); ctx.count("evaluations");
             const Avoid::PolyLine &rt = cs[i]->displayRoute();
             // With a bend penalty "the optimum" needs a path class (in the continuum a bend anywhere can be cheaper).
             // Two classes bracket every reasonable reading: LB = optimum over all paths of the tangent visibility graph
@@ -213,7 +213,7 @@ static void c05_phase(int G, int k, double penCells, bool dirs) {
         unsigned dl[5] = {Avoid::ConnDirAll, Avoid::ConnDirUp, Avoid::ConnDirDown, Avoid::ConnDirLeft, Avoid::ConnDirRight};
         for (size_t a = 0; a < fr.size(); a++) for (size_t b = a + 1; b < fr.size(); b++) for (int da = 0; da < (dirs ? 5 : 1); da++) for (int db = 0; db < (dirs ? 5 : 1); db++) {
             if (dirs && da == 0 && db == 0) continue;
-            ctx.count("transitions");
+            ctx.count("transitions"); ctx.count("evaluations");
             Avoid::Router *r = mk_router(true, penCells * S, 0, sc);
             Avoid::ConnRef *c = mk_conn(r, fr[a], fr[b], dl[da], dl[db]); r->processTransaction();
             bool diag = false, diag2 = false; double cost = ortho_cost(c->route(), penCells, diag); ortho_cost(c->displayRoute(), penCells, diag2);
@@ -266,7 +266,7 @@ static void c05_bends(int range) {
         if (x == 0 && y == 0) continue;
         for (unsigned cd : dirs) for (unsigned td : dirs) {
             if (!ctx.next()) continue;
-            ctx.count("states"); ctx.count("transitions"); ctx.count("nontrivial");
+            ctx.count("states"); ctx.count("transitions"); ctx.count("nontrivial"); ctx.count("evaluations");
             for (int sc : {1, 10}) {
                 int b = Avoid::bends(Avoid::Point(x * sc, y * sc), cd, Avoid::Point(0, 0), td), t = truemin(x, y, cd, 0, 0, td);
                 ctx.cls("bend_estimate", mcx::fmt("%d", b));
